@@ -31,6 +31,9 @@ def constructCompositionT4(mcnp_parser, dic_cell_mcnp):
     instance of the VolumeT4 class.'''
     dic_new_composition = OrderedDict()
     for key, val in compositionConversionMCNPToT4(mcnp_parser).items():
+        if key == 0:
+            # an M0 card only sets default libraries; material 0 is void
+            continue
         fractions = extract_isotopes_fractions(val.isotopes)
         densities = set()
         for cell_id, cell in dic_cell_mcnp.items():
